@@ -9,6 +9,7 @@ import Pandora.Bridge.GrpcStatus
 import Pandora.Proofs.C10
 import Pandora.Proofs.C10R2
 import Pandora.Proofs.C10R3
+import Pandora.Proofs.C10R4
 
 namespace Pandora.Props.C10
 open Pandora.Model.C10 Pandora.Spec.C10 Pandora.Proofs.C10
@@ -823,6 +824,157 @@ theorem C10_paths :
     | badPayload => simp [grpcStepPath] at h; subst h; decide
     | invoked c post => cases post <;> simp [grpcStepPath] at h <;> (subst h; decide)
 
+/-! ## round 4: pooled ammo objects, counters far into a run, failed dials -/
+
+/-- The grpc/json provider decodes every line into an ammo object it takes from a `sync.Pool` the instances release
+their ammo into. For EVERY pool policy (`choose`), EVERY initial pool contents (objects in any state: tagged, with
+metadata and payload keys of their own, flagged invalid) and every file (any mix of lines with and without the optional
+keys `tag` / `metadata` / `payload`, undecodable lines in between): (1) the ammo delivered is what each line decodes to in
+a NEW object; (2) one sample per line, carrying the tag of ITS line — nothing when the line has none; (3) an ammo is
+flagged invalid iff its own line cannot be decoded (the flag does not stick to the object); (4) the Spec's judge accepts
+the run's samples against the truth read off the LINES. -/
+theorem C10_ammo_pool_reuse (choose : List AmmoObj → Option Nat) (pool : List AmmoObj) (ents : List Entry) :
+    runAmmoPool deliver choose pool ents = ents.map (deliver {}) ∧
+    (shootAmmo (runAmmoPool deliver choose pool ents)).map (·.tags) = ents.map entryTag ∧
+    (runAmmoPool deliver choose pool ents).map (·.invalid) = ents.map (fun e => !e.decodable) ∧
+    judgeGrpc (ents.map fun e => (entryTag e, grpcTruth (scriptedOutcome (deliver {} e))))
+      ((shootAmmo (runAmmoPool deliver choose pool ents)).map toObs) = "ok" := by
+  have htab : ∀ c, grpcToHttp c = docTable c := fun c =>
+    (Bridge.GrpcStatus.grpcToHttp_eq c).symm.trans (C10_grpc_table c)
+  rw [runAmmoPool_deliver]
+  refine ⟨rfl, ?_, ?_, ?_⟩
+  · rw [shootAmmo_tags]; simp [List.map_map, Function.comp_def, deliver_tag]
+  · simp [List.map_map, Function.comp_def, deliver_invalid]
+  · have h := judgeGrpc_accepts_ammo htab (ents.map (deliver {}))
+    simpa [List.map_map, Function.comp_def, deliver_tag] using h
+
+/-- The same claim for a provider that decodes the line straight INTO the pooled object (no fresh value, no `Reset`). -/
+def C10_ammo_pool_decoding_into_pooled_statement : Prop :=
+  ∀ (choose : List AmmoObj → Option Nat) (pool : List AmmoObj) (ents : List Entry),
+    (shootAmmo (runAmmoPool deliverInto choose pool ents)).map (·.tags) = ents.map entryTag
+
+/-- It is false: a line without `tag` decoded into the object a tagged line was released in is reported under that tag. -/
+theorem C10_ammo_pool_decoding_into_pooled_counterexample : ¬ C10_ammo_pool_decoding_into_pooled_statement := by
+  intro h
+  have := h (fun p => if p.isEmpty then none else some 0) []
+    [{ tag := some "T", call := some "target.TargetService.Hello" }, { call := some "target.TargetService.Hello" }]
+  revert this
+  decide
+
+/-- Ids far into a run: the counter stands at `start` (that many ammo were acquired, carrying the ids `1 … start`) and
+the run goes on under ANY schedule of any number of instances. As long as the 64-bit counter does not wrap, the ids of
+the stretch are pairwise distinct, every one of them is larger than `start` — none is an id an earlier ammo of the run
+carried — and the Spec's judge of a stretch accepts them. -/
+theorem C10_ids_far_into_a_run {ι : Type} (start : Nat) (sched : List ι) (h : start + sched.length < idModulus) :
+    ((runIds start sched).map Prod.snd).Nodup ∧
+    (∀ id ∈ (runIds start sched).map Prod.snd, start < id ∧ id ≤ start + sched.length) ∧
+    judgeIdsFrom start sched.length ((runIds start sched).map Prod.snd).length
+      (((runIds start sched).map Prod.snd).filter (· ≤ start)).length = "ok" := by
+  have hlen : sched.length ≤ idModulus := by omega
+  have hafter := ids_after_start start sched h
+  refine ⟨(C10_ids_unique start sched hlen).1, hafter, ?_⟩
+  have hnone : ((runIds start sched).map Prod.snd).filter (· ≤ start) = [] := by
+    rw [List.filter_eq_nil_iff]
+    intro id hid
+    have := (hafter id hid).1
+    simp; omega
+  have hl : ((runIds start sched).map Prod.snd).length = sched.length := by
+    rw [runIds_snd]; simp
+  simp [judgeIdsFrom, hnone, hl]
+
+/-- The same for a counter of `bits` bits whose value `NextID` widens to the 64-bit id. -/
+def C10_ids_narrow_counter_statement (bits : Nat) : Prop :=
+  ∀ (start : Nat) (sched : List Unit), start < 2 ^ bits → start + sched.length < idModulus →
+    ∀ id ∈ (runIdsW bits start sched).map Prod.snd, start < id
+
+/-- True of the code's 64-bit counter … -/
+theorem C10_ids_narrow_counter_64 : C10_ids_narrow_counter_statement 64 := by
+  intro start sched _ h id hid
+  rw [runIdsW_64] at hid
+  exact (ids_after_start start sched h id hid).1
+
+/-- … false of a 32-bit one: after 2^32 − 1 ammo the next id is 0, then 1 — the id of the run's first ammo. -/
+theorem C10_ids_narrow_counter_counterexample : ¬ C10_ids_narrow_counter_statement 32 := by
+  intro h
+  have := h 4294967295 [()] (by decide) (by decide) 0 (by decide)
+  omega
+
+/-- A failed dial, for every gun (http, http2, connect), with `dial.dns-cache` on or off, the target's address cached or
+not, redirects off or on, refused with any errno or timed out: (1) the error `Shoot` hands to the sample does not depend
+on `dns-cache` — `NewDNSCachingDialer` returns a dial error as it is; (2) the http / http2 guns code a refused dial with
+its errno and a dial timeout with 110, redirects on or off; (3) the CONNECT gun (whose dial function wraps every error
+with `errors.WithStack`) codes a refused dial with its errno when `Shoot` gets the error directly and with the 999
+fallback behind `redirect: true` (`*url.Error` outside, the wrapper below it), and a dial timeout with 999; (4) the code
+is never 0; (5) the Spec's relational judge accepts any list of failed dials coded with `dns-cache` on against the same
+coded with it off. -/
+theorem C10_dial_failure :
+    (∀ g cached redirect d, dialFailure g true cached redirect d = dialFailure g false cached redirect d) ∧
+    (∀ g dc cached redirect n, g ≠ .connect → n ≠ 11 →
+        getErrno (dialFailure g dc cached redirect (.refused n)) = n) ∧
+    (∀ g dc cached redirect, g ≠ .connect → getErrno (dialFailure g dc cached redirect .timedOut) = 110) ∧
+    (∀ dc cached n, getErrno (dialFailure .connect dc cached false (.refused n)) = n ∧
+        getErrno (dialFailure .connect dc cached true (.refused n)) = 999 ∧
+        ∀ redirect, getErrno (dialFailure .connect dc cached redirect .timedOut) = 999) ∧
+    (∀ g dc cached redirect d, (∀ n, d = .refused n → n ≠ 0) → getErrno (dialFailure g dc cached redirect d) ≠ 0) ∧
+    (∀ l : List (GunKind × Bool × Bool × DialFail),
+        judgeDialerIndependent (l.map fun x => getErrno (dialFailure x.1 true x.2.1 x.2.2.1 x.2.2.2))
+          (l.map fun x => getErrno (dialFailure x.1 false x.2.1 x.2.2.1 x.2.2.2)) = "ok") := by
+  have h1 : ∀ g cached redirect d, dialFailure g true cached redirect d = dialFailure g false cached redirect d := by
+    intro g cached redirect d
+    simp [dialFailure, transportDialErr, cachingDial]
+  refine ⟨h1, ?_, ?_, ?_, ?_, ?_⟩
+  · intro g dc cached redirect n hg hn
+    cases g <;> cases dc <;> cases redirect <;>
+      simp_all [dialFailure, transportDialErr, cachingDial, clientErr, dialErr, getErrno, isNetError, hasTimeout,
+        stripUnderlying, cause, unwrapLoop, timeoutErrno] <;> omega
+  · intro g dc cached redirect hg
+    cases g <;> cases dc <;> cases redirect <;>
+      simp_all [dialFailure, transportDialErr, cachingDial, clientErr, dialErr, getErrno, isNetError, hasTimeout,
+        timeoutErrno]
+  · intro dc cached n
+    refine ⟨?_, ?_, ?_⟩
+    · cases dc <;> simp [dialFailure, transportDialErr, cachingDial, connectDial, clientErr, dialErr, getErrno,
+        isNetError, hasTimeout, stripUnderlying, cause, unwrapLoop]
+    · cases dc <;> simp [dialFailure, transportDialErr, cachingDial, connectDial, clientErr, dialErr, getErrno,
+        isNetError, hasTimeout, stripUnderlying, cause, unwrapLoop, protoCodeError]
+    · intro redirect
+      cases dc <;> cases redirect <;> simp [dialFailure, transportDialErr, cachingDial, connectDial, clientErr, dialErr,
+        getErrno, isNetError, hasTimeout, stripUnderlying, cause, unwrapLoop, protoCodeError]
+  · intro g dc cached redirect d hd
+    cases d with
+    | timedOut =>
+      cases g <;> cases dc <;> cases redirect <;>
+        simp [dialFailure, transportDialErr, cachingDial, connectDial, clientErr, dialErr, getErrno, isNetError,
+          hasTimeout, stripUnderlying, cause, unwrapLoop, protoCodeError, timeoutErrno]
+    | refused n =>
+      have hn := hd n rfl
+      cases g <;> cases dc <;> cases redirect <;>
+        simp [dialFailure, transportDialErr, cachingDial, connectDial, clientErr, dialErr, getErrno, isNetError,
+          hasTimeout, stripUnderlying, cause, unwrapLoop, protoCodeError, timeoutErrno] <;>
+        (try split) <;> omega
+  · intro l
+    have : (l.map fun x => getErrno (dialFailure x.1 true x.2.1 x.2.2.1 x.2.2.2))
+        = (l.map fun x => getErrno (dialFailure x.1 false x.2.1 x.2.2.1 x.2.2.2)) := by
+      apply List.map_congr_left
+      intro x _
+      rw [h1]
+    rw [this]
+    exact judgeDialerIndependent_refl _
+
+/-- The same independence claim for a caching dialer that decorates the error of the first dial of an address it has
+not cached yet (`errors.Wrapf`). -/
+def C10_dial_wrapping_dialer_statement : Prop :=
+  ∀ (g : GunKind) (redirect : Bool) (d : DialFail),
+    getErrno (clientErr redirect (transportDialErr cachingDialWrapping g true false d))
+      = getErrno (clientErr redirect (transportDialErr cachingDialWrapping g false false d))
+
+/-- It is false: a dial timeout of the http gun is coded 999 through that dialer and 110 without it. -/
+theorem C10_dial_wrapping_dialer_counterexample : ¬ C10_dial_wrapping_dialer_statement := by
+  intro h
+  have := h .http false .timedOut
+  revert this
+  decide
+
 /-! ## non-vacuity: concrete non-trivial inputs meeting the hypotheses -/
 
 -- the documented example: /my/very/deep/page with uri-elements 2 gives /my/very
@@ -911,5 +1063,19 @@ example : hitsMismatch "scn" [⟨"scn.login", 0, 200, 0⟩, ⟨"scn.login|__EMPT
 example : httpPath ⟨true, 1, false⟩ { ammoTag := "t", id := 7, path := "/a/b", outcome := .response 503 (some .other) }
     = ("void", ["IsInvalid=false", "AddTag", "Do=ok", "SetProtoCode", "Body=err", "SetErr", "Report"]) := by decide
 example : stepPath true (.received 200 .ok) = some ("nil", ["Do=ok", "Body=ok", "SetProtoCode", "Report", "Sleep"]) := by decide
+
+-- round 4
+example : runAmmoPool deliver (fun p => if p.isEmpty then none else some 0) [{ tag := "stale", invalid := true }]
+    [{ tag := some "T", call := some "c", metadata := some [("x-code", "5")] }, { call := some "c" }, { decodable := false }]
+    = [{ tag := "T", call := "c", metadata := [("x-code", "5")] }, { call := "c" }, { invalid := true }] := by decide
+example : (runAmmoPool deliverInto (fun p => if p.isEmpty then none else some 0) []
+    [{ tag := some "T", call := some "c" }, { call := some "c" }]).map (·.tag) = ["T", "T"] := by decide
+example : (4294967295 : Nat) + [(), ()].length < idModulus := by decide
+example : (runIds 4294967295 [(), ()]).map Prod.snd = [4294967296, 4294967297] := by decide
+example : (runIdsW 32 4294967295 [(), ()]).map Prod.snd = [0, 1] := by decide
+example : getErrno (dialFailure .http true false true (.refused 111)) = 111 := by decide
+example : getErrno (dialFailure .connect true false true (.refused 111)) = 999 := by decide
+example : getErrno (clientErr false (transportDialErr cachingDialWrapping .http true false .timedOut)) = 999 := by decide
+example : (GunKind.http2 ≠ .connect) ∧ (111 ≠ 11) := by decide
 
 end Pandora.Props.C10
